@@ -65,3 +65,204 @@ def m_zip(it, *seqs, strict=False):
     if seqs and all(isinstance(s_, SSeq) for s_ in seqs):
         return SZip(list(seqs))
     return _orig_zip(it, *seqs, strict=strict)
+
+
+# ----------------------------------------------------------------------------------------------------
+# numpy on arrays represented as STensor (C20): nan-aware reductions, argmax(axis=), sorted index permutations,
+# dot / inv / statsmodels.add_constant.  NaN is the explicit predicate isnan(x) on real entries (as for torch.isnan).
+
+def _np_tensor_models():
+    from . import tensor as T
+    from .tensor import STensor, F_ISNAN, as_tensor, dim_z3, reduce_sum, TENSOR_METHODS, tmethod, R, I
+    from .models import SRange, SymCallable
+    from .core import to_z3
+
+    model(np.isnan)(T.m_isnan)
+
+    def _axis(t, axis):
+        if axis is None:
+            raise OutOfSubset("nan-reduction without axis")
+        return axis % t.ndim
+
+    def _nan_reduce(it, t, axis, kind):
+        t = as_tensor(it, t)
+        axis = _axis(t, axis)
+        cx = it.cx
+        J = dim_z3(t.shape_[axis])
+        rest = tuple(d for k, d in enumerate(t.shape_) if k != axis)
+
+        def full(idx, j):
+            return tuple(list(idx[:axis]) + [j] + list(idx[axis:]))
+        if kind == "mean":
+            # nanmean = (sum of the non-NaN entries) / (their number); NaN (with a RuntimeWarning) when there is none
+            obs = STensor(t.shape_, lambda idx: z3.If(F_ISNAN(t.fn(idx)), z3.RealVal(0), t.fn(idx)), "real")
+            cnt = STensor(t.shape_, lambda idx: z3.If(F_ISNAN(t.fn(idx)), z3.RealVal(0), z3.RealVal(1)), "real")
+            s, c = reduce_sum(it, obs, axis), reduce_sum(it, cnt, axis)
+            nanv = z3.Const(cx.fresh_name("nan"), R)
+            cx.assume(F_ISNAN(nanv))
+            out = STensor(rest, lambda idx: z3.If(c.fn(idx) == 0, nanv, s.fn(idx) / c.fn(idx)), "real")
+            iv = [z3.Int(cx.fresh_name("mi")) for _ in rest]
+            body = z3.Implies(c.fn(tuple(iv)) != 0, z3.Not(F_ISNAN(s.fn(tuple(iv)) / c.fn(tuple(iv)))))
+            cx.assume(z3.ForAll(iv, body) if iv else body)       # a mean of numbers is a number
+            return out
+        Fm = z3.Function(cx.fresh_name("nan" + kind), *([I] * len(rest)), R) if rest else None
+        c0 = z3.Const(cx.fresh_name("nan" + kind), R) if not rest else None
+
+        def val(idx):
+            return Fm(*idx) if rest else c0
+        iv = [z3.Int(cx.fresh_name("ri")) for _ in rest]
+        j = z3.Int(cx.fresh_name("rj"))
+        w = z3.Int(cx.fresh_name("rw"))
+        dom = z3.And(*[z3.And(0 <= i, i < dim_z3(d)) for i, d in zip(iv, rest)]) if rest else z3.BoolVal(True)
+        inj = z3.And(0 <= j, j < J)
+        inw = z3.And(0 <= w, w < J)
+        ent_j, ent_w = t.fn(full(iv, j)), t.fn(full(iv, w))
+        allnan = z3.ForAll([j], z3.Implies(inj, F_ISNAN(ent_j)))
+        bound = (ent_j <= val(iv)) if kind == "max" else (ent_j >= val(iv))
+        body = z3.If(allnan, F_ISNAN(val(iv)),
+                     z3.And(z3.Not(F_ISNAN(val(iv))),
+                            z3.ForAll([j], z3.Implies(z3.And(inj, z3.Not(F_ISNAN(ent_j))), bound)),
+                            z3.Exists([w], z3.And(inw, z3.Not(F_ISNAN(ent_w)), ent_w == val(iv)))))
+        cx.assume(z3.ForAll(iv, z3.Implies(dom, body)) if iv else body)
+        return STensor(rest, lambda idx: val(list(idx)), "real")
+
+    @model(np.nanmax)
+    def m_nanmax(it, a, axis=None, **kw):
+        return _nan_reduce(it, a, axis, "max")
+
+    @model(np.nanmin)
+    def m_nanmin(it, a, axis=None, **kw):
+        return _nan_reduce(it, a, axis, "min")
+
+    @model(np.nanmean)
+    def m_nanmean(it, a, axis=None, **kw):
+        return _nan_reduce(it, a, axis, "mean")
+
+    @model(np.sum)
+    def m_npsum(it, a, axis=None, **kw):
+        return reduce_sum(it, as_tensor(it, a), axis)
+
+    @model(np.dot)
+    def m_npdot(it, a, b):
+        return T.matmul(it, as_tensor(it, a), as_tensor(it, b))
+
+
+    @model(np.linalg.inv)
+    def m_inv(it, a):
+        """inverse of a 1x1 / 2x2 matrix: a fresh matrix G with A.G = G.A = I; a singular matrix raises LinAlgError"""
+        a = as_tensor(it, a)
+        cx = it.cx
+        if a.ndim != 2 or a.shape_[0] != a.shape_[1] or a.shape_[0] not in (1, 2):
+            raise OutOfSubset("np.linalg.inv of this shape")
+        n = a.shape_[0]
+        A = [[a.elem_real((z3.IntVal(r), z3.IntVal(c))) for c in range(n)] for r in range(n)]
+        det = A[0][0] if n == 1 else A[0][0] * A[1][1] - A[0][1] * A[1][0]
+        if cx.branch(det == 0):
+            ops.raise_(np.linalg.LinAlgError, "Singular matrix")
+        G = [[z3.Const(cx.fresh_name(f"inv{r}{c}"), R) for c in range(n)] for r in range(n)]
+        for r in range(n):
+            for c in range(n):
+                unit = z3.RealVal(1 if r == c else 0)
+                cx.assume(sum(A[r][k] * G[k][c] for k in range(n)) == unit)
+                cx.assume(sum(G[r][k] * A[k][c] for k in range(n)) == unit)
+
+        def fn(idx):
+            e = G[n - 1][n - 1]
+            for r in reversed(range(n)):
+                for c in reversed(range(n)):
+                    e = z3.If(z3.And(idx[0] == r, idx[1] == c), G[r][c], e)
+            return e
+        return STensor((n, n), fn, "real")
+
+    def add_constant(it, data, prepend=True, has_constant="skip"):
+        """statsmodels.tools.add_constant on a 1-D array with has_constant='add': the (n, 2) matrix [1, x] (or [x, 1])"""
+        x = as_tensor(it, data)
+        if x.ndim != 1 or has_constant != "add":
+            raise OutOfSubset("add_constant of this input")
+        one_col = 0 if prepend else 1
+        return STensor((x.shape_[0], 2), lambda idx: z3.If(idx[1] == one_col, z3.RealVal(1), x.elem_real((idx[0],))), "real")
+    _np_tensor_models.add_constant = add_constant
+
+
+    def _like(value):
+        def m_like(it, a, *args, **kw):
+            if isinstance(a, SSeq):
+                e = z3.RealVal(value) if a.ec.sort == R else z3.IntVal(value)
+                j = z3.Int(it.cx.fresh_name("zl"))
+                return SSeq(it.cx, a.ec, "like", a.length, z3.Lambda([j], e), np.ndarray)
+            t = as_tensor(it, a)
+            if t is None:
+                raise OutOfSubset("zeros_like / ones_like of this value")
+            return STensor(t.shape_, lambda idx: z3.RealVal(value), "real")
+        return m_like
+    model(np.zeros_like)(_like(0))
+    model(np.ones_like)(_like(1))
+
+    # argmax / argmin with numpy's keyword
+    for nm, is_min in (("argmax", False), ("argmin", True)):
+        def _mk(is_min):
+            def t_arg(it, t, dim=None, keepdim=False, axis=None):
+                return T._argext(it, t, dim if axis is None else axis, keepdim, is_min)
+            return t_arg
+        TENSOR_METHODS[nm] = _mk(is_min)
+
+    @tmethod("flatten")
+    def t_flatten(it, t, *a):
+        if t.ndim == 1:
+            return t
+        if t.ndim == 2 and isinstance(t.shape_[1], int) and t.shape_[1] == 1:
+            return STensor((t.shape_[0],), lambda idx: t.fn((idx[0], z3.IntVal(0))), t.dtype)
+        raise OutOfSubset("flatten of this shape")
+
+    def _sorted_range(self, it, key, reverse):
+        """sorted(range(lo, hi), key=t.__getitem__, reverse=...): a permutation of the indices, ordered by key, stable
+        (python's sort keeps the original order of equal keys, also with reverse=True)"""
+        t = getattr(key, "_getitem_of", None)
+        if not isinstance(t, STensor) or t.ndim != 1:
+            raise OutOfSubset("sorted(range) with this key")
+        cx = it.cx
+        lo, hi = to_z3(self.lo, "int"), to_z3(self.hi, "int")
+        n = z3.If(hi > lo, hi - lo, z3.IntVal(0))
+        if cx.branch(z3.And(n > 0, z3.Or(lo < -dim_z3(t.shape_[0]), hi > dim_z3(t.shape_[0])))):
+            ops.raise_(IndexError, "index out of bounds")
+        perm = z3.Function(cx.fresh_name("perm"), I, I)
+        inv = z3.Function(cx.fresh_name("perminv"), I, I)
+        i, j, k = z3.Int(cx.fresh_name("pi")), z3.Int(cx.fresh_name("pj")), z3.Int(cx.fresh_name("pk"))
+
+        def kv(x):
+            x = z3.If(x >= 0, x, x + dim_z3(t.shape_[0]))
+            return t.fn((x,))
+        key_at_k = t.fn((k,))
+        pats2 = [inv(k)] + ([key_at_k] if z3.is_app(key_at_k) and key_at_k.decl().kind() == z3.Z3_OP_UNINTERPRETED else [])
+        cx.assume(z3.ForAll([i], z3.Implies(z3.And(0 <= i, i < n), z3.And(lo <= perm(i), perm(i) < hi, inv(perm(i)) == i)),
+                            patterns=[perm(i)]))
+        # every index of the range is somewhere in the result (instantiated wherever the key of an index is mentioned)
+        cx.assume(z3.ForAll([k], z3.Implies(z3.And(lo <= k, k < hi), z3.And(0 <= inv(k), inv(k) < n, perm(inv(k)) == k)),
+                            patterns=pats2))
+        before = (kv(perm(i)) >= kv(perm(j))) if reverse else (kv(perm(i)) <= kv(perm(j)))
+        cx.assume(z3.ForAll([i, j], z3.Implies(z3.And(0 <= i, i < j, j < n),
+                                               z3.And(before, z3.Implies(kv(perm(i)) == kv(perm(j)), perm(i) < perm(j)))),
+                            patterns=[z3.MultiPattern(perm(i), perm(j))]))
+        return STensor((z3.simplify(n),), lambda idx: perm(idx[0]), "int")
+    SRange._sorted = _sorted_range
+
+    _old_getattr = STensor._getattr
+
+    def _getattr(self, it, name, node=None):
+        if name == "__getitem__":
+            c = SymCallable(lambda it_, idx: T.tensor_getitem(it_, self, idx, node), "Tensor.__getitem__")
+            c._getitem_of = self
+            return c
+        return _old_getattr(self, it, name, node)
+    STensor._getattr = _getattr
+
+
+_np_tensor_models()
+
+
+def register_statsmodels():
+    """statsmodels is imported only by the LME benchmark: its one modelled function is registered on demand (C20)"""
+    import statsmodels.api as sm
+    from statsmodels.tools import tools as smtools
+    for f in {sm.add_constant, smtools.add_constant}:
+        model(f)(_np_tensor_models.add_constant)
